@@ -47,10 +47,13 @@ Dom == [
   aud    |-> {"absent", "snap", "other", "arr_snap", "arr_other", "arr_empty", "num"},
   pextra |-> {"none", "str", "obj"} ]            \* an unregistered private claim
 
-\* offsets (seconds relative to the verifier's clock) the harness uses for the time classes;
-\* every class is >= 15 s away from now and from now +- Leeway (DESIGN.md S4)
-ExpOff == [fut |-> 3600, soon |-> 20, lee |-> 0 - 30, gone |-> 0 - 75, old |-> 0 - 86400, float |-> 3600, neg |-> 0 - 5]
-NbfOff == [past |-> 0 - 3600, now |-> 0 - 15, lee |-> 30, notyet |-> 75, far |-> 3600, float |-> 0 - 3600]
+\* offsets (seconds relative to the verifier's clock) the harness uses for the time classes.
+\* Every class is >= 15 s away from now and from now +- Leeway (DESIGN.md S4), and every class
+\* whose verdict the property decides keeps that verdict when the verification happens up to
+\* 120 s after the token was built (a stalled machine): "soon" is still unexpired-or-in-leeway,
+\* "notyet" is still beyond the leeway; the other decided classes only move away from the boundary.
+ExpOff == [fut |-> 3600, soon |-> 120, lee |-> 0 - 30, gone |-> 0 - 75, old |-> 0 - 86400, float |-> 3600, neg |-> 0 - 5]
+NbfOff == [past |-> 0 - 3600, now |-> 0 - 15, lee |-> 30, notyet |-> 180, far |-> 3600, float |-> 0 - 3600]
 
 Fields == DOMAIN Dom
 
